@@ -39,13 +39,14 @@ def _dispatch(mod, prop, ctx, case):
     if isinstance(case, dict) and case.get("kind") == "large":
         from props import _large
         return _large.run(prop, ctx, case)
+    if isinstance(case, dict) and case.get("kind") == "dtype":
+        from props import _dtype
+        return _dtype.run(prop, ctx, case)
     return mod.run_case(ctx, case)
 
 
 def _stateful_rule(prop):
     from props import _stateful
-    if prop not in _stateful.RUN:
-        return ""
     from props import _battery
     bat = ""
     if prop in _battery.BATTERIES:
@@ -53,14 +54,21 @@ def _stateful_rule(prop):
                "model against the library on their own generated inputs" % ", ".join(b[0] for b in _battery.BATTERIES[prop]))
     bat += ("  PLUS large-input cases (harness/props/_large.py, histogram key 'large'): long modes (33..200), ranks 16..32, 9..13 modes, index arrays of "
             "65..300 entries, tall matrices, large batches against dense oracles (implementation only, no model side)")
+    bat += ("  PLUS precision / dtype / entry-point cases (harness/props/_dtype.py, histogram key 'dtype-layer'): float32, integer / bool and mixed-dtype "
+            "inputs, a process default dtype different from the tensors', magnitudes 1e-20 / 1e+20, augmented assignment and other spellings, arguments "
+            "given as 0-dim tensor / range / tuple / NumPy array, against dense float64 oracles with the tolerance of the inputs' precision "
+            "(implementation only, no model side)")
+    if prop not in _stateful.RUN:
+        return bat
     return (bat + "  PLUS sequence cases (harness/props/_stateful.py, histogram key 'stateful'): short histories on the same Python objects — "
             "re-query after in-place edits, caller-owned argument objects reused, results held across later calls; oracles: dense arrays "
             "and fresh-copy equivalence (sampling of the implementation only, no model side)")
 
 
 def _all_cases(mod, prop, rng, tier):
-    from props import _stateful, _battery, _large
-    return _battery.cases(prop, rng, tier) + _large.cases(prop, rng, tier) + list(mod.cases(rng, tier)) + _stateful.cases(prop, rng, tier)
+    from props import _stateful, _battery, _large, _dtype
+    return _battery.cases(prop, rng, tier) + _large.cases(prop, rng, tier) + list(mod.cases(rng, tier)) + _stateful.cases(prop, rng, tier) + \
+        _dtype.cases(prop, rng, tier)
 
 
 def run_cases(prop, tier, seed, cases, use_model, search_only=False, workers=None):
